@@ -6,6 +6,7 @@ import (
 	"math/rand"
 	"os"
 	"path/filepath"
+	"time"
 
 	"verif/harness/internal/agent"
 	"verif/harness/internal/e2e"
@@ -32,7 +33,9 @@ type E2EParams struct {
 	Shapes    int    `json:"shapes"`    // C09: number of QER-list shapes to run (enumeration starts at ShapeFrom, stride ShapeStep)
 	ShapeFrom int    `json:"shapeFrom"`
 	ShapeStep int    `json:"shapeStep"`
-	QosMode   int    `json:"qosMode"` // 1: always configure per-QFI bursts with distinct cbs / pbs / ebs
+	QosMode   int    `json:"qosMode"`
+	FarBias   bool   `json:"farBias"`   // C14: most modifications are FAR updates
+	HoldFarMs int    `json:"holdFarMs"` // C14: delay of farLookup add while a modification with SNDEM is processed // 1: always configure per-QFI bursts with distinct cbs / pbs / ebs
 }
 
 type E2ESummary struct {
@@ -113,6 +116,8 @@ func e2eRandWorker(args []string) error {
 			return err
 		}
 
+		w.HoldFar = time.Duration(p.HoldFarMs) * time.Millisecond
+
 		return w.StartAgent()
 	}
 
@@ -165,7 +170,7 @@ func e2eRandWorker(args []string) error {
 		}
 
 		g := e2e.NewGen(w, rng.Int63(), e2e.GenOpt{Peers: 1 + rng.Intn(3), MaxSessions: 1 + rng.Intn(5), UEAlloc: w.Cfg.UEIPAlloc,
-			EndMarker: w.Cfg.EndMarker, Rejects: p.Rejects})
+			EndMarker: w.Cfg.EndMarker, Rejects: p.Rejects, FarBias: p.FarBias})
 
 		for i := 0; i < p.Steps; i++ {
 			if !g.Step() {
